@@ -42,7 +42,7 @@ func init() {
 	vf.Register(&vf.Check{
 		ID:    "C29",
 		Level: "exploration",
-		Rule: "case = (history, backend): one seeded history (quick 45, thorough 90 operations: set/setsync/delete/deletesync/get/has/iterator/reverse-iterator/" +
+		Rule: "case = (history, backend): one seeded history (quick 40, thorough 80 operations: set/setsync/delete/deletesync/get/has/iterator/reverse-iterator/" +
 			"batch written or discarded/snapshot+later writes/full verification; through the raw DB, two PrefixDB views and SnapshotDB) applied to one backend and compared " +
 			"with the ordered-map model; keys built from {00,01,'a','b',FE,FF}, the PrefixDB prefixes and their neighbours, empty and nil keys/values; bounds nil, empty, " +
 			"equal to a key, key+00, key-1+FF, start>=end. non-trivial = the history compared on that backend at least one non-empty iterator in each direction with a " +
@@ -388,11 +388,22 @@ func (h *hist) existing(v int) []string {
 }
 
 func (h *hist) genBound(v int) []byte {
+	b := h.genBound0(v)
+	if h.rawEmpty && len(b) == 0 {
+		return nil // see runHistory: no empty non-nil bounds in these histories
+	}
+	return b
+}
+
+func (h *hist) genBound0(v int) []byte {
 	r := h.rng
 	switch x := r.IntN(100); {
 	case x < 20:
 		return nil
 	case x < 27:
+		if h.rawEmpty {
+			return nil
+		}
 		return []byte{}
 	case x < 68:
 		ks := h.existing(v)
@@ -421,7 +432,10 @@ func (h *hist) genBound(v int) []byte {
 		return k
 	}
 	k := h.genKey(v)
-	if k == nil {
+	if len(k) == 0 {
+		if h.rawEmpty {
+			return nil
+		}
 		k = []byte{}
 	}
 	return k
@@ -641,7 +655,7 @@ func (h *hist) cmpIter(t *target, rd reader, site string, cls string, m map[stri
 }
 
 // verifyAll: full content of the backend equals the model (raw and both prefix views).
-func (h *hist) verifyAll(t *target) {
+func (h *hist) verifyAll(t *target, full bool) {
 	for v := 0; v < 3 && !t.dead; v++ {
 		if v > 0 && h.rng.IntN(2) == 0 {
 			continue
@@ -660,6 +674,9 @@ func (h *hist) verifyAll(t *target) {
 	for _, k := range ks {
 		if k == "" && !h.rawEmpty {
 			continue
+		}
+		if !full && len(ks) > 12 && h.rng.IntN(len(ks)) >= 12 {
+			continue // intermediate verifications sample the point reads
 		}
 		want, ok := h.model[k]
 		h.cmpGet(t, t.db, "raw", h.class(0, nil, nil, false), []byte(k), want, ok)
@@ -1001,6 +1018,9 @@ func (h *hist) opSnapshot() {
 				if rr.v == 0 && rel == "" && !h.rawEmpty {
 					continue
 				}
+				if len(ks) > 8 && h.rng.IntN(len(ks)) >= 8 {
+					continue
+				}
 				want, ok := frozen[k]
 				h.cmpGet(t, rr.rd, rr.site, cls, []byte(rel), want, ok)
 			}
@@ -1077,7 +1097,7 @@ func (h *hist) step() {
 	default:
 		h.logf("verify all")
 		for _, t := range h.live() {
-			h.verifyAll(t)
+			h.verifyAll(t, false)
 		}
 	}
 }
@@ -1100,6 +1120,14 @@ func runHistory(c *vf.Ctx, bs *bset, i int, rng *rand.Rand, nops int) {
 		h.pfx[2] = prefixChoices[rng.IntN(len(prefixChoices))]
 	}
 	h.rawEmpty = i%4 == 3
+	if h.rawEmpty {
+		// Histories that use the empty raw key stay clear of the other special
+		// input classes (prefixes ending in FF, empty non-nil bounds) so that a
+		// violation there is attributable to the empty key alone.
+		plain := [][]byte{{'a'}, {'b'}, {'a', 0x00}, {0x00}, {0x01, 'a'}, []byte("nil")}
+		h.pfx[1] = plain[rng.IntN(len(plain))]
+		h.pfx[2] = plain[rng.IntN(len(plain))]
+	}
 	h.logf("prefix1=%x prefix2=%x rawEmptyKey=%v", h.pfx[1], h.pfx[2], h.rawEmpty)
 	h.wipe()
 	for _, t := range h.live() { // the wiped backend must be empty
@@ -1110,7 +1138,7 @@ func runHistory(c *vf.Ctx, bs *bset, i int, rng *rand.Rand, nops int) {
 	}
 	h.logf("final verify")
 	for _, t := range h.live() {
-		h.verifyAll(t)
+		h.verifyAll(t, true)
 	}
 	for k, v := range h.cnt {
 		c.Count(k, v)
@@ -1136,8 +1164,8 @@ func runHistory(c *vf.Ctx, bs *bset, i int, rng *rand.Rand, nops int) {
 }
 
 func run(c *vf.Ctx) {
-	nhist := c.N(1200, 30000)
-	nops := c.N(45, 90)
+	nhist := c.N(800, 24000)
+	nops := c.N(40, 80)
 	workers := 8
 	c.Set("histories", nhist)
 	c.Set("ops_per_history", nops)
